@@ -14,16 +14,19 @@ META = dict(
               "three real revisions, OTHER is merged into a real working tree at THIS by Merger.do_merge() for merge3 / "
               "weave / lca, and the resulting working tree and conflict list are judged by the same TLA+ laws",
     level_text="Bounded-exhaustive generation by TLC over BASE trees from {a, b, d/, d/a}, edit sets of <= 2 (thorough 3) "
-               "edits per side from {modify, rename, move, delete, chmod, kind change, add} for laws 1-3 and <= 1 "
-               "(thorough 2) per side for law 4; TLC proves on the model that every applicable law demands the same, "
-               "well-formed result tree and that law 4's union is the sequential application in either order. Each "
-               "replayed case is a real on-disk merge (2a and git working trees; plain BASE->THIS/OTHER histories with "
-               "explicit BASE, and criss-cross histories where _entries_lca is used) whose versioned projection, on-disk "
-               "projection and conflict list TLC compares with the law's result tree. quick replays a seeded sample.",
+               "edits per side from {modify, rename, move, delete, chmod, kind change, add} for laws 1-3 and 1+1 (thorough "
+               "up to 2+1) edits for law 4; TLC proves on the model that all applicable laws accept a common, well-formed "
+               "result tree, that law 4's union is the sequential application in either order, and (thorough) that the "
+               "constructive enumeration equals brute force. Each replayed case is a real on-disk merge (2a and git "
+               "working trees; plain BASE->THIS/OTHER histories with explicit BASE, and criss-cross histories where "
+               "_entries_lca is used) whose versioned projection, on-disk projection and conflict list TLC compares with "
+               "the law's result tree. A seeded sample stratified by law and flavour is replayed; failing triples are "
+               "reduced to their smallest failing sub-triple before they are reported.",
     level_note="One representative per edit kind and a four-item namespace: the merger decides per entry on equality of "
                "parent / name / kind / content hash / executable bit only. For native trees identical additions carry "
-               "the same file id. For git trees a file is a path: law 4's antecedent and union are path-level and "
-               "directories are implicit. Trusted: TLC, the JSON bridge, the projection of trees to records.",
+               "the same file id. For git trees a file is a path: law 4's antecedent and union are path-level (the "
+               "union that follows a directory rename is accepted as well) and directories are implicit. All symlinks "
+               "created by a kind change have the same target. Trusted: TLC, the JSON bridge, the projection of trees.",
 )
 
 WITNESSES = {"ids": ("WitnessDirRename", "WitnessRealUnion", "WitnessSameAdd", "WitnessKind"),
@@ -307,7 +310,7 @@ def run(ctx):
     total = len(cases)
     cases.sort(key=lambda c: (c["law"], c["fl"], c["base"], _ops(c["dT"], True), _ops(c["dO"], True)))
     jobs = []
-    per_law = 50 if ctx.quick else 700
+    per_law = 50 if ctx.quick else 400
     for law in ("L1", "L2", "L3", "L4"):
         for fl in ("ids", "paths"):
             pool = [c for c in cases if c["law"] == law and c["fl"] == fl]
@@ -334,9 +337,12 @@ def run(ctx):
     for r in rows:
         if r["err"]:
             ctx.drift("do_merge raised %s (%s, %s history) on %s" % (r["err"], r["mt"], r["shape"], r["c"]), r)
-    ctx.sample(next(r for r in rows if r["c"]["law"] == "L4" and r["c"]["fl"] == "ids" and r["shape"] == "plain"))
-    ctx.sample(next(r for r in rows if r["c"]["law"] == "L3" and r["shape"] == "criss" and r["mt"] == "lca"))
-    ctx.sample(next(r for r in rows if r["c"]["law"] == "L2" and r["c"]["fl"] == "paths" and r["c"]["dO"]))
+    for pick in (lambda r: r["c"]["law"] == "L4" and r["c"]["fl"] == "ids" and r["shape"] == "plain",
+                 lambda r: r["c"]["law"] == "L3" and r["shape"] == "criss" and r["mt"] == "lca",
+                 lambda r: r["c"]["law"] == "L2" and r["c"]["fl"] == "paths" and r["c"]["dO"]):
+        r = next((r for r in rows if pick(r)), None)
+        if r is not None:
+            ctx.sample(r)
     bad = _judge(ctx, rows)
     for row, verdict in bad:
         if not verdict["wf"] or not verdict["fixture"]:
@@ -345,8 +351,8 @@ def run(ctx):
                 c, row["shape"], row["impl"]["base"], row["impl"]["this"], row["impl"]["other"]))
     _report(ctx, [(r, v) for r, v in bad if v["failed"]])
     ctx.rule("TLC enumerates, for BASE item sets %(Bases)s and both tree flavours, every well-formed triple per law: laws "
-             "1-3 with edit sets of <= %(MaxSide)s edits, law 4 with <= %(MaxPair)s edits per side (edits: mod / ren / mov "
-             "/ del / chm / knd on a, b, d, d/a and add of n, d/n)" % consts +
+             "1-3 with edit sets of <= %(MaxSide)s edits, law 4 with <= %(MaxPair)s edits per side and <= %(MaxSum)s together "
+             "(edits: mod / ren / mov / del / chm / knd on a, b, d, d/a and add of n, d/n)" % consts +
              "; %d cases enumerated, a seeded sample stratified by law and flavour replayed (%d histories x 3 merge types; "
              "native trees additionally on criss-cross histories). Non-trivial = some side has an edit" % (total, len(jobs)))
     ctx.cov["cases_enumerated"] = total
